@@ -37,6 +37,29 @@ C20  1. TLC checks SchemaModel_MC20 exhaustively over presentations of type univ
         AND the tuples are the real Introspectable impls of aldrin-core (core/src/impls/tuple.rs) over slot
         types; otherwise a tuple is hand-built IR as the specification describes it - the two must agree.
      3. binding sanity: corrupted CanonIds / a corrupted presentation must be noticed.
+     4. derive-macro types whose ids are partly IMPLICIT (SchemaDerive.tla, SchemaDerive_MC.tla).  The rule of the macros
+        (macros/src/derive/{enum_data,struct_data,introspectable}.rs): the explicit `#[aldrin(id = N)]` if given, otherwise the
+        id of the previous item + 1 (first item: 0) - the same for enum variants, fields of structs with named fields and fields
+        of tuple structs.  TLC enumerates the id patterns (every sequence of length 0..MaxLen over Ids + "no id", seeded-random
+        longer ones, and for each the same assignment with all ids written out as the code generator writes them; patterns that
+        assign an id twice are left out - the macros do not reject them, but they denote no wire layout), checks Inv_Rule
+        (recursive rule = closed form, fixed point), Inv_WFD, Inv_Explicit (writing the ids out / named vs tuple struct: same
+        CanonId), Inv_Classes (equal CanonId <=> same layout kind and same assignment) and writes every (kind, pattern) with
+        its expected ids, the definition it denotes and its CanonId.
+        From exactly those vectors this module writes a crate under /verif/.work/c20-derive (never committed) with one real
+        `#[derive(Tag, PrimaryTag, RefType, Serialize, Deserialize, Introspectable)]` type per (kind, pattern) - the attribute
+        `#[aldrin(id = N)]` only where the pattern has an explicit id -, cargo/rustc compile it against /repo's working tree on
+        every run, and harness/crates/schema-driver/src/derive_rt.rs observes for every type (a) the ids on the wire
+        (serialize by value and by reference, read back as a dynamic aldrin_core::Value), (b) the ids in the layout of
+        Introspection::new::<T>(), (c) TypeId::compute::<T>(), (d) the TypeId of hand-built IR of the specification's
+        definition, and decides:
+          D1 no panic; D2 (a) = (b): the layout behind the type id is the wire layout; D3 (c) = (d) with the ids used on the
+          wire; D4 across the corpus equal CanonId <=> equal TypeId.
+        Wire ids that are not the specification's assignment while layout and wire agree (a consistently different numbering
+        rule), by-value / by-reference disagreement and failures of the derived Deserialize are DRIFT (not C20's statement).
+        Binding sanity: falsified expected assignments must be noticed (as DRIFT and as D4 class disagreement).
+        `bin/check C20 --replay <file>` of such a finding regenerates a crate with the recorded pattern(s) only, compiles it
+        against the current tree and judges it as in a run.
 """
 import glob
 import json
